@@ -47,6 +47,7 @@ type collector struct {
 	res      *core.ExtraResult
 	seed     int64
 	tier     string
+	prop     string
 	round    int
 	procs    int
 	perKind  map[string]int
@@ -95,9 +96,9 @@ func (c *collector) failf(phase, kind, format string, a ...interface{}) {
 		return
 	}
 	full := fmt.Sprintf("[%s] phase=%s round=%d GOMAXPROCS=%d: %s", kind, phase, c.round, c.procs, msg)
-	c.res.Fails = append(c.res.Fails, core.Fail{Property: "C14", Step: -1, Msg: full})
-	c.res.Replays = append(c.res.Replays, fmt.Sprintf("harness-race extra -component stress -prop C14 -tier %s -seed %d   # round %d, phase %s (GOMAXPROCS=%d): %s",
-		c.tier, c.seed, c.round, phase, c.procs, msg))
+	c.res.Fails = append(c.res.Fails, core.Fail{Property: c.prop, Step: -1, Msg: full})
+	c.res.Replays = append(c.res.Replays, fmt.Sprintf("harness-race extra -component stress -prop %s -tier %s -seed %d   # round %d, phase %s (GOMAXPROCS=%d): %s",
+		c.prop, c.tier, c.seed, c.round, phase, c.procs, msg))
 }
 
 // ---------------------------------------------------------------- phases, goroutines, watchdog
@@ -270,10 +271,16 @@ func maybeYield() {
 
 func (comp) Extra(prop string, tier string, seed int64, scratch string) *core.ExtraResult {
 	res := &core.ExtraResult{Counts: map[string]int{}}
-	c := &collector{res: res, seed: seed, tier: tier, perKind: map[string]int{}, phaseSet: map[string]bool{}}
+	c := &collector{res: res, seed: seed, tier: tier, prop: prop, perKind: map[string]int{}, phaseSet: map[string]bool{}}
+	if c.prop == "" {
+		c.prop = "C14"
+	}
 	_ = logger.SetLogLevel("*:NONE")
 	start := time.Now()
 	rounds, scale, budget := 10, 1, 36*time.Second
+	if prop == "C17" || prop == "C06" {
+		rounds, budget = 12, 12*time.Second
+	}
 	c.watchdog = 25 * time.Second
 	if tier == "thorough" {
 		rounds, scale, budget = 60, 3, 9*time.Minute
@@ -288,8 +295,10 @@ func (comp) Extra(prop string, tier string, seed int64, scratch string) *core.Ex
 	procsTable := []int{runtime.NumCPU(), 2, 4, 1, 3, 8}
 	done := 0
 	// no circular wait among the repository's mutexes: graph re-extracted from the source, decided by Coq
-	phaseLockOrder(c, scratch)
-	obsEvictReadd(c)
+	if c.prop == "C14" {
+		phaseLockOrder(c, scratch)
+		obsEvictReadd(c)
+	}
 	for r := 0; r < rounds; r++ {
 		if time.Since(start) > budget || c.aborted.Load() {
 			break
@@ -302,6 +311,12 @@ func (comp) Extra(prop string, tier string, seed int64, scratch string) *core.Ex
 		steps := []func(*collector, int64, int){
 			phaseTxAddOnly, phaseTxMixed, phaseTxLimits, phaseTxEvict, phaseTxClear, phaseTxDiagnose,
 			phaseImmunity, phaseCrossTx, phaseImmunityClear, phaseLRU, phaseCapacityLRU, phaseAdapter, phaseFifo, phaseTimeCache, phaseConcurrentMap,
+		}
+		switch c.prop {
+		case "C17": // the spilling adapter under concurrent use: acknowledged keys are always found
+			steps = []func(*collector, int64, int){phaseAdapter}
+		case "C06": // pool limits after concurrent use: eviction keeps running
+			steps = []func(*collector, int64, int){phaseTxEvict, phaseTxLimits}
 		}
 		for _, f := range steps {
 			if c.aborted.Load() {
